@@ -116,7 +116,32 @@ static bool do_step(const std::string& st, vh::Reader& r, vh::Out& o, Matrix& M,
 	}
 	else
 	{
-		if(st == "hold")
+		if(st == "lib")
+		{
+			// a call of ANOTHER facility of the library (on its own argument B, not on the object) between two calls of the history:
+			// whatever it leaves behind in the process must not change the object's later answers
+			std::string which					= r.word();
+			std::vector<std::vector<double>> tb = r.table();
+			Matrix B(tb);
+			if(which == "eigensystem")
+				Eigensystem(B);
+			else if(which == "eigenvectors")
+				Eigenvectors(B);
+			else if(which == "eigenvalues")
+				Eigenvalues(B);
+			else if(which == "qr")
+				QR_Decomposition(B);
+			else if(which == "rotation")
+				Rotation_Matrix(B[0][0], (B.Rows() == 2) ? 2 : 3);
+			else if(which == "outer")
+				Outer_Vector_Product(Vector(tb[0]), Vector(tb[1]));
+			else
+			{
+				o.w("HARNESSERR unknown_facility");
+				return false;
+			}
+		}
+		else if(st == "hold")
 		{
 			// std::vector<double>& r_h = M[i];  (the non-const operator[]), kept for later
 			long h = r.integer(), i = r.integer();
